@@ -455,6 +455,7 @@ class InvariantObserver:
         self.failures = []
         self.snap = None
         self.checked = 0
+        self.env_ok = True  # every keep-response so far delivered a physical id the link layer held
 
     @staticmethod
     def _apps(real):
@@ -473,6 +474,8 @@ class InvariantObserver:
             "unit": e._qubit_unit_modules.get(a)})
 
     def before(self, real, idx, o):
+        if o["k"] == "keep" and o["p"] not in real.reserved:
+            self.env_ok = False
         self.snap = {a: self._snap_app(real, a) for a in self._apps(real)}
         self.used0 = set(real.e._used_physical_qubit_addresses)
         self.registry0 = sorted(k for k, v in SharedMemoryManager._MEMORIES.items() if v is not None)
@@ -489,13 +492,13 @@ class InvariantObserver:
             for v, p in enumerate(um):
                 if p is None:
                     continue
-                if p in seen:
+                if p in seen and self.env_ok:
                     self.fail("two virtual qubits map to the same physical qubit", idx, o,
                               physical=p, first=seen[p], second=[a, v])
                 seen[p] = [a, v]
         # (2) used = mapped ∪ reserved (reserved = handed to the link layer, not yet delivered)
         used = set(e._used_physical_qubit_addresses)
-        if used != set(seen) | set(real.reserved):
+        if self.env_ok and used != set(seen) | set(real.reserved):
             self.fail("set of used physical qubits differs from the set currently mapped", idx, o,
                       used=sorted(used), mapped=sorted(seen), reserved=sorted(real.reserved))
         # (3) per-application tables agree on which applications exist
@@ -678,17 +681,24 @@ class Gen:
         self.hot = [(2, 0), (2, 1), (0, 0), (0, 1)]
         self.addrs = [0, 1]
         napps = r.choice([1, 2, 3, 3])
-        reserved = []
+        live = set()
         for _ in range(length):
             x = r.random()
             a = r.randrange(napps)
-            if x < 0.14:
+            dead = [b for b in range(napps) if b not in live]
+            if x < 0.22:
+                if dead and r.random() < 0.8:
+                    a = r.choice(dead)
                 ops.append({"k": "init", "a": a, "n": r.choice([1, 2, 3, 4])})
-            elif x < 0.22:
+                live.add(a)
+                continue
+            if live and r.random() < 0.9:
+                a = r.choice(sorted(live))
+            if x < 0.30:
                 ops.append({"k": "stop", "a": a})
-            elif x < 0.30 and not msg:
+                live.discard(a)
+            elif x < 0.36 and not msg:
                 ops.append({"k": "reserve"})
-                reserved.append(None)
             elif x < 0.42 and not msg:
                 # keep response: virtual address stored in @1[0] by a small subroutine first
                 v = r.choice([0, 0, 1, 1, 2, 3, 4, -1, -2])
